@@ -151,6 +151,12 @@ func checkC09(rep *vk.Report) {
 		}
 		c09Scenario(rep, idx, "C09")
 	})
+	vk.Parallel(scale(rep, 400, 20000), 24, func(i int) {
+		if rep.Skip(50000000 + i) {
+			return
+		}
+		c09RetryInsideHedge(rep, 50000000+i)
+	})
 	reportYields(rep)
 	rep.Require("scenarios_with_hedges", 200)
 	rep.Require("accepted_matching_result_while_others_blocked", 100)
@@ -577,4 +583,43 @@ func c09Scenario(rep *vk.Report, idx int, prop string) {
 			rep.Sample(map[string]any{"case": cs, "result": fmt.Sprintf("(%d,%v)", res, err), "winner_entry": winner.k, "matched": matched, "function_entries": len(runsC), "hedges": len(hts)})
 		}
 	}
+}
+
+// c09RetryInsideHedge: Hedge(Retry(fn)) with cancel conditions. The first attempt's retry policy uses up its retries at
+// once on failing invocations, so the first ATTEMPT ends with a result that matches no cancel condition after several
+// invocations of the function. That is one finished attempt, not maxHedges+1: the policy has to keep waiting, start its
+// hedge after the delay, and return the hedge's matching result.
+func c09RetryInsideHedge(rep *vk.Report, idx int) {
+	r := vk.Rng(rep.Seed, "C09r", idx)
+	maxHedges := 1 + r.IntN(2)
+	retries := maxHedges + r.IntN(3) // the first attempt alone completes at least maxHedges+1 invocations
+	delay := time.Duration(3+r.IntN(5)) * time.Millisecond
+	var calls, hedges atomic.Int64
+	t0 := time.Now()
+	hp := hedgepolicy.BuilderWithDelay[int](delay).WithMaxHedges(maxHedges).CancelIf(func(_ int, err error) bool { return err == nil }).
+		OnHedge(func(failsafe.ExecutionEvent[int]) { hedges.Add(1) }).Build()
+	rp := retrypolicy.Builder[int]().WithMaxRetries(retries).Build()
+	value := 9000 + idx%1000
+	fn := func() (int, error) {
+		if int(calls.Add(1)) <= retries+1 {
+			return 0, errE1
+		}
+		return value, nil
+	}
+	var res int
+	var err error
+	if r.IntN(3) == 0 {
+		res, err = failsafe.NewExecutor[int](hp, rp).GetAsync(fn).Get()
+	} else {
+		res, err = failsafe.NewExecutor[int](hp, rp).Get(fn)
+	}
+	took := time.Since(t0)
+	rep.Eval()
+	cs := map[string]any{"max_hedges": maxHedges, "retries_inside": retries, "hedge_delay_ns": int64(delay)}
+	if err != nil || res != value || hedges.Load() < 1 || took < delay {
+		rep.Violate(idx, "C09/returned-before-all-attempts-finished", fmt.Sprintf("Hedge(delay %v, maxHedges %d, cancel on success)(Retry(%d retries)(fn)): the first attempt failed %d invocations at once and ended in a non-matching result; the call returned (%d,%v) after %v with %d hedges started - want the hedge's matching result %d, no earlier than the hedge delay", delay, maxHedges, retries, retries+1, res, err, took, hedges.Load(), value), cs)
+		return
+	}
+	rep.Count("retry_inside_hedge_rounds", 1)
+	rep.Distinct(fmt.Sprintf("rih|%d|%d", maxHedges, retries))
 }
